@@ -161,7 +161,7 @@ func (p *plan) allChunks(phase int) []chunk {
 	var cs []chunk
 	if phase == 2 {
 		for si, s := range p.seeds {
-			if len(s.B) <= p.pairSeedMax() {
+			if len(s.B) <= p.pairSeedMax() && !s.Light {
 				for fi := 0; fi+1 < len(p.fields(si)); fi++ {
 					cs = append(cs, chunk{Cat: "pair", Seed: si, A: fi})
 				}
@@ -178,13 +178,17 @@ func (p *plan) allChunks(phase int) []chunk {
 		cs = append(cs, chunk{Cat: "valid-fam", A: lo, B: hi})
 	}
 	for si := range p.seeds {
-		for fi := range p.fields(si) {
-			cs = append(cs, chunk{Cat: "field", Seed: si, A: fi})
+		if !p.seeds[si].Light {
+			for fi := range p.fields(si) {
+				cs = append(cs, chunk{Cat: "field", Seed: si, A: fi})
+			}
 		}
 		if len(p.walk(si).types) > 0 {
 			cs = append(cs, chunk{Cat: "retype", Seed: si})
 		}
+		cs = append(cs, chunk{Cat: "dropdep", Seed: si})
 	}
+	cs = append(cs, chunk{Cat: "nodep"})
 	cs = append(cs, chunk{Cat: "hdr"})
 	cs = append(cs, chunk{Cat: "raw", A: -1})
 	for x := 0; x < 256; x++ {
@@ -194,6 +198,9 @@ func (p *plan) allChunks(phase int) []chunk {
 		cs = append(cs, chunk{Cat: "triple", A: i})
 	}
 	for si, s := range p.seeds {
+		if s.Light {
+			continue
+		}
 		cs = append(cs, chunk{Cat: "trunc", Seed: si})
 		for lo := 0; lo < len(s.B); lo += substGroup {
 			hi := lo + substGroup
@@ -314,6 +321,24 @@ func (p *plan) expand(c chunk, yield func(in input)) {
 				b := append([]byte{}, s.B...)
 				b[ts.Off] = v
 				yield(input{B: b, Tag: fmt.Sprintf("retype:%s:%s@%d=%02x", s.Name, ts.Kind, ts.Off, v), ArgSets: 3})
+			}
+		}
+	case "nodep":
+		for _, m := range buildNoDep() {
+			yield(input{B: m.B, Tag: "nodep:" + m.Name, ArgSets: 3})
+		}
+	case "dropdep":
+		// remove a definition that instructions or other sections depend on, leaving the code section
+		// untouched: every whole section except type / function / code, and every single entry of the
+		// import, table, memory, global, export, element and data sections (first, last and every one in
+		// between; the indices of the following entries shift as the binary format dictates)
+		s := p.seeds[c.Seed]
+		for _, si := range p.walk(c.Seed).secs {
+			if si.ID != 1 && si.ID != 3 && si.ID != 10 {
+				yield(input{B: dropSection(s.B, si), Tag: fmt.Sprintf("dropdep:%s:section-%d@%d", s.Name, si.ID, si.Start), ArgSets: 3})
+			}
+			for k := range si.starts {
+				yield(input{B: dropEntry(s.B, si, k), Tag: fmt.Sprintf("dropdep:%s:section-%d@%d:entry-%d", s.Name, si.ID, si.Start, k), ArgSets: 3})
 			}
 		}
 	case "pair":
